@@ -49,6 +49,9 @@ package middlewares
 //@ func wrapBodyReader
 //@   at-call dynamic {C02,C06} [wraps-the-installed-reader] requires (ok ==> $0 == ctx.Locals("body-reader")) \
 //@        && (!ok ==> $0 == ctx.Request().BodyStream() || (ctx.Request().BodyStream() == nil && called("bytes.NewReader") && $0 == iface(result("bytes.NewReader", 0))))
+// on every path the wrapper is applied and its result installed: no request leaves wrapBodyReader without the verifying
+// reader in place (a request without a body stream gets an empty one, it is verified like any other)
+//@   at-return {C02,C06} [the-wrapper-is-always-applied] ensures called("dynamic")
 // C20: a request without a body has no body stream; what the wrappers are handed is never nil
 //@   at-call dynamic {C20} [the-reader-handed-to-the-wrapper-is-not-nil] requires ok || $0 != nil
 //@   at-call fiber.Ctx.Locals {C02,C06} [installs-the-wrapper] when len($2) > 0 :: requires $1 == iface("body-reader") && len($2) == 1 && $2[0] == result("dynamic", 0)
